@@ -384,15 +384,26 @@ func vpC12Classes(c *vpC12Case) (classes []string, distinctChallenges int, copie
 // some such order), through the original handle and copies of it.
 func TestVP_C12_seq(t *testing.T) {
 	c := kit.New(t, "C12", "rapid: 2..16 keys, one fresh nonce, 2..4 challenges differing in peer commitments / mask / message (or equal), 4..64 Response calls in a drawn sequential order over the handle and pointer/struct copies; oracle: all successes share one challenge and one byte-identical response, every other challenge gets ErrCosiNonceReuse, response satisfies s*B=R+c*A; non-trivial = >=2 different challenges requested through >=2 handle copies; distinct by seed+request list")
-	c.Require("different-challenges", "handle-copies", "repeated-challenge", "variant-peer-commitment", "variant-mask", "variant-message")
+	c.Require("different-challenges", "handle-copies", "repeated-challenge", "variant-peer-commitment", "variant-mask", "variant-message", "caller-wiped-response")
 	c.Assume("each Response call is treated as atomic in this variant; the -race unit probes that assumption with real goroutines")
 	kit.SetChecks(kit.N(1500, 60000))
 	rapid.Check(t, func(t *rapid.T) {
 		cs := vpC12Gen(t, 1)
 		h := vpC12Handles(cs.nonce)
 		results := make([]vpC12Result, 0, len(cs.reqs))
-		for _, r := range cs.reqs {
-			results = append(results, cs.do(h, r))
+		for i, r := range cs.reqs {
+			res := cs.do(h, r)
+			if res.resp != nil && (i+int(res.resp[0]))%2 == 0 {
+				// the caller is done with the response it was handed and wipes its
+				// buffer; later answers for the same challenge must not be affected
+				kept := *res.resp
+				for j := range res.resp {
+					res.resp[j] = 0
+				}
+				res.resp = &kept
+				c.Class("caller-wiped-response")
+			}
+			results = append(results, res)
 		}
 		if err := vpC12Judge(cs, results, true); err != nil {
 			t.Fatalf("%v", err)
